@@ -38,6 +38,11 @@ func extraSpecs() []*PropertySpec {
 		{ID: "C05", Rules: []string{"VERIFY-ROUND"}, Decided: "a read is marked quorum-verified only by a heartbeat round that was started after the read was submitted (per-operation stamp strictly below the round's identifier, which is fixed when the round starts)"},
 		{ID: "C10", Rules: []string{"SNAP-VISIBLE"}, Decided: "a snapshot directory that is still being written is never visible to SnapshotFile(), so nothing is restored from or sent out of a file whose label is complete and whose content is not"},
 		{ID: "C14", Rules: []string{"SNAP-VISIBLE"}, Decided: "as C10: a restart never restores from an unfinished snapshot directory"},
+		{ID: "C08", Rules: []string{"STATE-ATOMIC"}, Decided: "what persistTermAndVote hands to the bundled state storage is what a later State() returns: the record is built from the arguments, replaced atomically, and the cache State() answers from is left equal to it"},
+		{ID: "C02", Rules: []string{"STATE-ATOMIC"}, Decided: "as C08: the vote a node has cast is what it finds after Stop/Restart or a crash"},
+		{ID: "C07", Rules: []string{"IS-HANDLER/IS-TRIM,BOUNDARY-ATOMIC", "RESTORE-RECONCILE"}, Decided: "a voter keeps the log suffix it has acknowledged when a snapshot that ends inside its log arrives (the suffix is dropped only if the entry at the snapshot's last index has a different term), and a restart discards the log only if it does not contain that entry"},
+		{ID: "C11", Rules: []string{"RESTORE-RECONCILE"}, Decided: "a restart between the publication of a received snapshot and the reset of the log does not bring back a log that conflicts with the snapshot"},
+		{ID: "C19", Rules: []string{"REPLAY-TAIL", "COMPACT-KEEP"}, Decided: "what Replay reads back is what was appended: the end of the last complete record is where the decoder stopped (not where a read-ahead buffer stopped), a torn tail is cut there, and compaction rewrites exactly the kept records"},
 		{ID: "C12", Rules: []string{"LOG-POSITION"}, Decided: "the log file is never in append mode and is positioned whenever a new descriptor is installed, so a record's Offset is where the record is"},
 		{ID: "C19", Rules: []string{"LOG-POSITION"}, Decided: "as C12: offsets read back from storage equal the positions written"},
 		{ID: "C06", Rules: []string{"LOG-POSITION"}, Decided: "Truncate cuts the persistent log where the in-memory log says"},
